@@ -4,7 +4,10 @@ use std::{
     sync::Arc,
 };
 
+#[cfg(not(feature = "verif"))]
 use parking_lot::{RwLock, RwLockReadGuard};
+#[cfg(feature = "verif")]
+use rawdb::verif_sync::{RwLock, RwLockReadGuard};
 use rawdb::{Region, RegionMetadata};
 
 use crate::{AnyStoredVec, BUFFER_SIZE, Pages, VecIndex, VecValue, unlikely};
